@@ -71,6 +71,8 @@ fn main() {
 		b12::strat_metadata_injection(),
 		b12::oracle_metadata_injection,
 	);
+	// Observation outside the property's resolution (wire format carries whole seconds): opt-in only.
+	if std::env::var("VERIF_C18_SUBSECOND").is_ok() {
 	c.part(
 		PartSpec {
 			name: "finding_subsecond_expiry",
@@ -82,5 +84,6 @@ fn main() {
 		b12::strat_subsec(),
 		b12::oracle_subsec,
 	);
+	}
 	c.finish();
 }
